@@ -113,6 +113,27 @@ def feed_reactor(p, t, data):
     return ""
 
 
+def feed_chunks(p, t, chunks, burst):
+    """the chunks as separate reads; burst: all of them back-to-back, without an event-loop turn in between (on asyncio the
+    WebSocket adapter queues such reads).  Returns the list of escapes."""
+    chunks = list(chunks)
+    if not burst or len(chunks) < 2:
+        return [feed_reactor(p, t, ch) for ch in chunks]
+    if getattr(t, "_lost_told", False):
+        return [""]
+    if dropped(t):
+        tell_lost(p, t, clean=not t.abort_calls)
+        return [""]
+    e = fw.feed_burst(p, chunks)
+    fw.settle()
+    if e is not None:
+        tell_lost(p, t, clean=False)
+        return [type(e).__name__ + ":" + str(e)[:60]]
+    if dropped(t):
+        tell_lost(p, t, clean=not t.abort_calls)
+    return [""]
+
+
 def max_send_of(p):
     # (private attributes: if a refactoring renames them this is a machinery failure, not a verdict)
     if hasattr(p, "_max_len_send"):
@@ -250,8 +271,44 @@ def ws_neg_case(cl, sl):
     return dict(ev="ws_neg", cl=list(cl), sl=list(sl), obs=obs)
 
 
+def ws_neg_raw_case(offers, sl):
+    """a scripted client whose request lists arbitrary subprotocol names, against a real server speaking the serializers sl"""
+    ss = []
+    obs = dict(esc="", attachedS=0, serS="", subproto="", status=0, droppedS=False, binS=False, closesS=0)
+    try:
+        sf = ws.WampWebSocketServerFactory(lambda: StubSession(ss), url="ws://localhost:9000", serializers=[mk_ser(n) for n in sl])
+        sp = sf.buildProtocol(None) if fw.NAME == "tx" else sf()
+        st = fw.Transport()
+        fw.connect(sp, st)
+        names = [".".join(x for x in (o["p"], o["v"], o["s"]) if x != "") for o in offers]
+        req = (b"GET / HTTP/1.1\r\nHost: localhost:9000\r\nUpgrade: websocket\r\nConnection: Upgrade\r\n"
+               b"Sec-WebSocket-Key: dGhlIHNhbXBsZSBub25jZQ==\r\nSec-WebSocket-Version: 13\r\n"
+               b"Sec-WebSocket-Protocol: " + ", ".join(names).encode() + b"\r\n\r\n")
+        obs["esc"] = feed_reactor(sp, st, req)
+        fw.settle()
+        obs["attachedS"] = sum(s.opens for s in ss)
+        if obs["attachedS"]:
+            obs["serS"] = sp._serializer.SERIALIZER_ID
+            obs["binS"] = bool(sp._serializer._serializer.BINARY)
+        head = bytes(st.written).split(b"\r\n\r\n")[0]
+        if head.startswith(b"HTTP/1.1 "):
+            obs["status"] = int(head[9:12])
+        for line in head.split(b"\r\n"):
+            if line.lower().startswith(b"sec-websocket-protocol:"):
+                obs["subproto"] = line.split(b":", 1)[1].strip().decode()
+        obs["droppedS"] = dropped(st)
+        tell_lost(sp, st)
+        obs["closesS"] = sum(len(s.closes) for s in ss)
+    except Exception as e:  # noqa
+        obs["esc"] = obs["esc"] or ("drv:" + type(e).__name__ + ":" + str(e)[:60])
+    fw.reset()
+    return dict(ev="ws_neg_raw", offers=offers, sl=list(sl), obs=obs)
+
+
 def mode_ws_neg(inp):
     traces, cur = [], []
+    for offers, sl in inp.get("raw") or []:
+        cur.append(ws_neg_raw_case(offers, sl))
     for cl, sl in inp["pairs"]:
         cur.append(ws_neg_case(cl, sl))
         if len(cur) >= 128:
@@ -259,7 +316,7 @@ def mode_ws_neg(inp):
             cur = []
     if cur:
         traces.append(cur)
-    return traces, len(inp["pairs"])
+    return traces, len(inp["pairs"]) + len(inp.get("raw") or [])
 
 
 def main():
